@@ -3,6 +3,7 @@ package jsonapi
 import (
 	"encoding/json"
 	"errors"
+	"fmt"
 	"reflect"
 	"sort"
 )
@@ -149,6 +150,13 @@ func UnmarshalResource(data []byte, schema *Schema) (Resource, error) {
 	}
 
 	typ := schema.GetType(rske.Type)
+	if typ.Name == "" {
+		return nil, NewErrBadRequest(
+			"Unknown type",
+			fmt.Sprintf("The type %q does not exist.", rske.Type),
+		)
+	}
+
 	res := typ.New()
 
 	res.Set("id", rske.ID)
@@ -257,6 +265,13 @@ func UnmarshalPartialResource(data []byte, schema *Schema) (*SoftResource, error
 	}
 
 	typ := schema.GetType(rske.Type)
+	if typ.Name == "" {
+		return nil, NewErrBadRequest(
+			"Unknown type",
+			fmt.Sprintf("The type %q does not exist.", rske.Type),
+		)
+	}
+
 	newType := Type{
 		Name: typ.Name,
 	}
